@@ -6,7 +6,7 @@ export CARGO_TARGET_DIR=$wt/target CARGO_NET_OFFLINE=true
 out=/verif/seeded/$id/confirm.txt
 {
 echo "== suite with change"; cargo test --offline --lib 2>&1 | grep -E '^test result' 
-echo "== demo with change (must fail)"; cargo test --offline --test demo_$id 2>&1 | grep -E '^test result|FAILED|panicked' | head -5
+echo "== demo with change (must fail)"; cargo test --offline --test demo_$id 2>&1 | grep -E '^test result'
 git stash push -q -- rust
 echo "== demo without change (must pass)"; cargo test --offline --test demo_$id 2>&1 | grep -E '^test result'
 git stash pop -q
